@@ -764,7 +764,7 @@ func flipBit(b []byte, i int) []byte {
 
 func (g *gen) verification() {
 	r := g.r
-	ks := g.keys(g.n(3, 12))
+	ks := g.keys(g.n(3, 4)) // thorough: every single-bit fault of 4 keys x 2 hashes x 3 seeds (12 keys took 87 min)
 	if !g.thor {
 		ks = ks[:3]
 	}
